@@ -15,6 +15,8 @@ pub struct TaskSpec {
     pub interval_ms: i64,
     pub single: Option<usize>,
     pub priority: u32,
+    /// how the INTERVAL/PRIORITY are written in the source (0..=5); same meaning, different syntax
+    pub style: u8,
 }
 
 #[derive(Clone, Debug)]
@@ -22,6 +24,8 @@ pub struct Case {
     pub tasks: Vec<TaskSpec>,
     /// task index per program instance (None = background), in declaration order
     pub prog_task: Vec<Option<usize>>,
+    /// per program instance: task that runs its FB member `fb` (None = the program has no FB member)
+    pub prog_fb: Vec<Option<usize>>,
     pub sv_init: Vec<bool>,
     /// (dt in ns before the cycle, values of the BOOL globals for this cycle)
     pub timeline: Vec<(i64, Vec<bool>)>,
@@ -43,12 +47,23 @@ pub fn gen_case(rng: &mut Rng, cycles: usize) -> Case {
                 None
             },
             priority: if equal_prio { 1 } else { rng.below(4) as u32 },
+            style: rng.below(6) as u8,
         })
         .collect();
     let nprogs = 1 + rng.below(ntasks as u64 + 2) as usize;
     let prog_task = (0..nprogs)
         .map(|_| {
             if rng.chance(3, 4) {
+                Some(rng.below(ntasks as u64) as usize)
+            } else {
+                None
+            }
+        })
+        .collect();
+    let with_fbs = rng.chance(1, 3);
+    let prog_fb = (0..nprogs)
+        .map(|_| {
+            if with_fbs && rng.chance(1, 2) {
                 Some(rng.below(ntasks as u64) as usize)
             } else {
                 None
@@ -76,6 +91,7 @@ pub fn gen_case(rng: &mut Rng, cycles: usize) -> Case {
     Case {
         tasks,
         prog_task,
+        prog_fb,
         sv_init,
         timeline,
     }
@@ -96,24 +112,52 @@ pub fn render_source(case: &Case) -> String {
             Some(v) => format!("SINGLE := sv{v}, "),
             None => String::new(),
         };
+        // equivalent spellings of the same duration / defaults, to cover the CONFIGURATION lowering
+        let ms = t.interval_ms;
+        let interval = match t.style {
+            1 => format!("TIME#{ms}ms"),
+            2 => format!("T#{}us", ms * 1000),
+            3 if ms >= 2 => format!("T#{}ms{}us", ms - 1, 1000),
+            4 => format!("t#{ms}MS"),
+            _ => format!("T#{ms}ms"),
+        };
+        let interval_part = if t.style == 5 && ms == 0 && t.single.is_some() {
+            String::new() // INTERVAL omitted: defaults to T#0ms
+        } else {
+            format!("INTERVAL := {interval}, ")
+        };
         s.push_str(&format!(
-            "TASK T{i} ({single}INTERVAL := T#{}ms, PRIORITY := {});\n",
-            t.interval_ms, t.priority
+            "TASK T{i} ({single}{interval_part}PRIORITY := {});\n",
+            t.priority
         ));
     }
     for (p, t) in case.prog_task.iter().enumerate() {
+        let fb = match case.prog_fb[p] {
+            Some(ft) => format!(" (fb WITH T{ft})"),
+            None => String::new(),
+        };
         match t {
-            Some(t) => s.push_str(&format!("PROGRAM I{p} WITH T{t} : Prog{p};\n")),
-            None => s.push_str(&format!("PROGRAM I{p} : Prog{p};\n")),
+            Some(t) => s.push_str(&format!("PROGRAM I{p} WITH T{t} : Prog{p}{fb};\n")),
+            None => s.push_str(&format!("PROGRAM I{p} : Prog{p}{fb};\n")),
         }
     }
     s.push_str("END_CONFIGURATION\n\n");
+    let mut pous = String::new();
     for p in 0..case.prog_task.len() {
-        s.push_str(&format!(
-            "PROGRAM Prog{p}\nVAR_EXTERNAL\n    seq : DINT;\nEND_VAR\nVAR\n    stamp : DINT := 0;\nEND_VAR\nseq := seq + 1;\nstamp := seq;\nEND_PROGRAM\n\n"
+        let member = if case.prog_fb[p].is_some() {
+            pous.push_str(&format!(
+                "FUNCTION_BLOCK Fb{p}\nVAR_EXTERNAL\n    seq : DINT;\nEND_VAR\nVAR\n    stamp : DINT := 0;\nEND_VAR\nseq := seq + 1;\nstamp := seq;\nEND_FUNCTION_BLOCK\n\n"
+            ));
+            format!("    fb : Fb{p};\n")
+        } else {
+            String::new()
+        };
+        pous.push_str(&format!(
+            "PROGRAM Prog{p}\nVAR_EXTERNAL\n    seq : DINT;\nEND_VAR\nVAR\n    stamp : DINT := 0;\n{member}END_VAR\nseq := seq + 1;\nstamp := seq;\nEND_PROGRAM\n\n"
         ));
     }
-    s
+    // FUNCTION_BLOCKs first so that program types can refer to them
+    format!("{pous}{s}")
 }
 
 fn as_i64(v: Option<&Value>) -> i64 {
@@ -152,13 +196,21 @@ pub fn run_case(n: u64, case: &Case, out: &mut Out) -> Result<(), String> {
         return Err("configuration shape differs".into());
     }
     for (i, t) in case.tasks.iter().enumerate() {
-        let progs: Vec<usize> = case
+        let mut progs: Vec<usize> = case
             .prog_task
             .iter()
             .enumerate()
             .filter(|(_, pt)| **pt == Some(i))
             .map(|(p, _)| p)
             .collect();
+        // FB instances of the task run after its programs; unit id of program p's FB = nprogs + p
+        progs.extend(
+            case.prog_fb
+                .iter()
+                .enumerate()
+                .filter(|(_, ft)| **ft == Some(i))
+                .map(|(p, _)| nprogs + p),
+        );
         out.line(format!(
             "task {} {} {} {}",
             t.interval_ms * MS,
@@ -178,6 +230,20 @@ pub fn run_case(n: u64, case: &Case, out: &mut Out) -> Result<(), String> {
             other => panic!("program instance I{p}: {other:?}"),
         })
         .collect();
+    // unit ids: programs 0..nprogs, then the FB member of program p as nprogs + p
+    let mut units: Vec<(usize, trust_runtime::memory::InstanceId)> =
+        ids.iter().copied().enumerate().collect();
+    for (p, ft) in case.prog_fb.iter().enumerate() {
+        if ft.is_some() {
+            match h.runtime().storage().get_instance_var(ids[p], "fb") {
+                Some(Value::Instance(id)) => units.push((nprogs + p, *id)),
+                other => panic!("fb member of I{p}: {other:?}"),
+            }
+        }
+    }
+    if case.prog_fb.iter().any(|f| f.is_some()) {
+        out.count("cases_with_fb_tasks");
+    }
     let mut last_seq = 0i64;
     let mut nontrivial = false;
     for (dt, svs) in &case.timeline {
@@ -211,10 +277,9 @@ pub fn run_case(n: u64, case: &Case, out: &mut Out) -> Result<(), String> {
             }
         }
         let seq = as_i64(h.runtime().storage().get_global("seq"));
-        let mut stamped: Vec<(i64, usize)> = ids
+        let mut stamped: Vec<(i64, usize)> = units
             .iter()
-            .enumerate()
-            .map(|(p, id)| (as_i64(h.runtime().storage().get_instance_var(*id, "stamp")), p))
+            .map(|(u, id)| (as_i64(h.runtime().storage().get_instance_var(*id, "stamp")), *u))
             .filter(|(s, _)| *s > last_seq)
             .collect();
         stamped.sort();
